@@ -203,7 +203,7 @@ PROPS = {
             "Coq.Floats.SpecFloat as the definition of IEEE-754 arithmetic (see C06); decimal text of numbers (Rust Display) is modelled exactly only for whole numbers and multiples of 1/8 (Lang/NumText.v); programs printing other numbers are compared on outcome and variables only",
             "modelled, not verified: Lang/Sem.v (big-step reference semantics written from the language rules), VM/Gen.v (rusty_basic/src/instruction_generator/{expression,statement,main,if_block,loops,select_case,print,label_resolver}.rs for the core fragment), VM/Machine.v (interpreter/main.rs fetch-execute loop and the handlers of the ~35 instructions the fragment uses), Val/Arith2.v (divide, modulo, comparisons, AND/OR/NOT of rusty_variant)",
             "harness/src/c01.rs: program generator, its printer (source text with positions) and the Coq literal printer for the AST, the implementation's instruction list, statement addresses, outcome, stdout and final variables (hook Context::verif_*); the list of implicitly declared variables is taken from the implementation's own DIM prefix",
-            "NOT modelled: DATA/READ, sub-programs, arrays, user-defined types, string functions inside core programs, ON ERROR; the parser and linter are exercised (programs go through them) but only their output is compared, through the instruction list",
+            "DATA/READ are modelled (Sem.exec_main: the DATA statements of the main program first, then the implicit declarations, then the rest; call instructions of the two built-ins in VM/Machine.v). NOT modelled: sub-programs, arrays, user-defined types, string functions inside core programs, ON ERROR; the parser and linter are exercised (programs go through them) but only their output is compared, through the instruction list",
         ],
         "assumptions": [
             "theorems cover all expressions, straight-line programs, and every instruction list accepted by the proved validator VM/Validate.check_program (IF/SELECT/FOR/WHILE/DO nested to any depth, runs of any length); that the real generator's output is accepted is decided per generated program by evaluating the validator in Coq on the real instruction list (case 'valid'), not by a universal theorem about the generator",
